@@ -568,6 +568,24 @@ fn associated_of(p: &SubPlan, refs: &SubRef, m: &gen::Module) -> BTreeSet<(Strin
                     }
                 }
             }
+            // an imported information object (or object set): the named types of the fixed-type
+            // fields of its class, wherever that class lives
+            for a in em.assigns.iter().filter(|a| &a.name == sym && a.kind == AKind::Class) {
+                for class_name in &a.refs {
+                    let class_home = em.imports.iter().find(|i| i.symbols.contains(class_name)).map(|i| i.from.clone()).unwrap_or(em.name.clone());
+                    let Some(cm) = p.set.get(&class_home) else { continue };
+                    for class in cm.assigns.iter().filter(|c| &c.name == class_name && c.kind == AKind::Class) {
+                        for field_ty in &class.refs {
+                            let home = cm.imports.iter().find(|i| i.symbols.contains(field_ty)).map(|i| i.from.clone()).unwrap_or(cm.name.clone());
+                            if let Some(target) = name_of(&home) {
+                                for ident in attr_of(&home, field_ty) {
+                                    associated.insert((target.clone(), ident));
+                                }
+                            }
+                        }
+                    }
+                }
+            }
         }
     }
     associated
@@ -661,22 +679,7 @@ fn check_imports(out: &mut Outcome, p: &SubPlan, refs: &SubRef, mi: usize, block
     // governing types of imported values, which the linker imports on its own (documented
     // behaviour, validator/mod.rs "associated type imports"); such a type may live in a third
     // module when the exporting module imported it itself
-    let mut associated: BTreeSet<(String, String)> = BTreeSet::new(); // (rust module, ident)
-    for imp in &m.imports {
-        let Some(em) = p.set.get(&imp.from) else { continue };
-        for sym in &imp.symbols {
-            for a in em.assigns.iter().filter(|a| &a.name == sym && a.kind == AKind::Value) {
-                for r in &a.refs {
-                    let home = em.imports.iter().find(|i| i.symbols.contains(r)).map(|i| i.from.clone()).unwrap_or(em.name.clone());
-                    if let Some(target) = name_of(&home) {
-                        for ident in attr_of(&home, r) {
-                            associated.insert((target.clone(), ident));
-                        }
-                    }
-                }
-            }
-        }
-    }
+    let associated: BTreeSet<(String, String)> = associated_of(p, refs, m); // (rust module, ident)
     let allowed: BTreeSet<String> = m.imports.iter().filter_map(|i| name_of(&i.from)).collect();
     for u in &sibling_uses {
         if u.path.len() == 2 && !allowed.contains(&u.path[1]) {
